@@ -1,4 +1,4 @@
-package diam
+package sm
 
 // Native bodies of the harness intrinsics: they read the replay vector written
 // by the engine (VERIF_REPLAY) so that a counterexample runs against the real build.
